@@ -1,0 +1,23 @@
+//go:build verif
+
+// Machine-checked contracts for package zenv (comment-only; compiled only with -tags verif).
+package zenv
+
+// The environment as a record: the value of a key is the trimmed environment variable of that name ("" = absent);
+// a field's key is its env tag, else its zog tag, else the schema key; nested lookups stay in the same flat source.
+//@ func (*envDataProvider).Get(e, key)
+//@   implements iface DataProvider.Get
+//@   pure
+//@   ensures[C14] trimmed_environment_variable: result == box(trimspace(getenv(key)))
+//@ func (*envDataProvider).GetByField(e, field, fallback)
+//@   implements iface DataProvider.GetByField
+//@   unfold tag_named: p.dptag(box(e)) == &envTag
+//@   pure
+//@   ensures[C10,C14] key_by_tag_priority: result1 == p.fieldkey(field, fallback, &envTag)
+//@   ensures[C14] value_under_that_key: result0 == box(trimspace(getenv(result1)))
+//@ func (*envDataProvider).GetNestedProvider(e, key)
+//@   pure
+//@   ensures[C14] nested_lookups_stay_in_the_environment: result == box(e)
+//@ func NewDataProvider()
+//@   pure
+//@   ensures[C14] result != nil
